@@ -167,7 +167,7 @@ template <typename Iter1, typename Iter2>
 [[nodiscard]] constexpr auto operator<(etl::reverse_iterator<Iter1> const& lhs, etl::reverse_iterator<Iter2> const& rhs)
     -> bool
 {
-    return lhs.base() < rhs.base();
+    return lhs.base() > rhs.base();
 }
 
 /// Compares the underlying iterators. Inverse comparisons are applied in
@@ -176,7 +176,7 @@ template <typename Iter1, typename Iter2>
 [[nodiscard]] constexpr auto
 operator<=(etl::reverse_iterator<Iter1> const& lhs, etl::reverse_iterator<Iter2> const& rhs) -> bool
 {
-    return lhs.base() <= rhs.base();
+    return lhs.base() >= rhs.base();
 }
 
 /// Compares the underlying iterators. Inverse comparisons are applied in
@@ -185,7 +185,7 @@ template <typename Iter1, typename Iter2>
 [[nodiscard]] constexpr auto operator>(etl::reverse_iterator<Iter1> const& lhs, etl::reverse_iterator<Iter2> const& rhs)
     -> bool
 {
-    return lhs.base() > rhs.base();
+    return lhs.base() < rhs.base();
 }
 
 /// Compares the underlying iterators. Inverse comparisons are applied in
@@ -194,7 +194,7 @@ template <typename Iter1, typename Iter2>
 [[nodiscard]] constexpr auto
 operator>=(etl::reverse_iterator<Iter1> const& lhs, etl::reverse_iterator<Iter2> const& rhs) -> bool
 {
-    return lhs.base() >= rhs.base();
+    return lhs.base() <= rhs.base();
 }
 
 /// Returns the iterator it incremented by n.
